@@ -249,3 +249,47 @@ package ir
 //@   tags C13
 //@   at append keep stmt arg1[0] Block unless is(stmt.Kind, StmtCall)
 //@   loop 2 step keep sk.Cases[rangeindex] newCases[rangeindex] Block
+
+// ---- validator control-flow rules (C08) ----------------------------------------
+//
+// WGSL: `break` is valid inside a switch clause (it leaves the switch) and inside
+// a loop body (it leaves the loop) but must not leave a loop from that loop's own
+// continuing block; `continue` needs an enclosing loop and must not be placed in
+// that loop's own continuing block. A loop nested in a continuing block is an
+// ordinary loop for the break/continue statements inside it. The validator may
+// therefore report a break/continue only in these situations, expressed over
+// the context it maintains; the context each nested block is validated in is
+// fixed by the at-clauses, and every statement leaves the context as it found it.
+//
+//@ pred vctx(v) := v != nil
+//@ pred ctxkept(v) := v.context.loopDepth == old(v.context.loopDepth) && v.context.inContinuing == old(v.context.inContinuing) && v.context.switchDepth == old(v.context.switchDepth) && v.context.ownContinuing == old(v.context.ownContinuing) && v.context.function == old(v.context.function)
+//
+//@ func (*Validator).addErrorInStatement
+//@   mode bv
+//@   tags C08
+//@   requires [recv] v != nil
+//@   ensures [ctx] ctxkept(v)
+//@   assigns v.errors, HA_ValidationError
+//
+//@ func (*Validator).validateBlock
+//@   mode bv
+//@   tags C08
+//@   requires [recv] v != nil
+//@   ensures [ctx-restored] ctxkept(v)
+//@   assigns v.errors, v.context, HA_ValidationError
+//@   loop 1 invariant [ctx] ctxkept(v)
+//
+//@ func (*Validator).validateStatement
+//@   mode bv
+//@   tags C08
+//@   requires [recv] v != nil && stmt != nil
+//@   ensures [ctx-restored] ctxkept(v)
+//@   assigns v.errors, v.context, HA_ValidationError
+//@   at (*Validator).addErrorInStatement assert [break-rule] is(stmt.Kind, StmtBreak) ==> v.context.switchDepth == 0 && (v.context.loopDepth == 0 || v.context.ownContinuing)
+//@   at (*Validator).addErrorInStatement assert [continue-rule] is(stmt.Kind, StmtContinue) ==> v.context.loopDepth == 0 || v.context.ownContinuing
+//@   at (*Validator).validateBlock assert [switch-ctx] is(stmt.Kind, StmtSwitch) ==> v.context.switchDepth == old(v.context.switchDepth) + 1 && v.context.loopDepth == old(v.context.loopDepth) && v.context.ownContinuing == old(v.context.ownContinuing)
+//@   at (*Validator).validateBlock assert [plain-ctx] is(stmt.Kind, StmtBlock) || is(stmt.Kind, StmtIf) ==> ctxkept(v)
+//@   at (*Validator).validateBlock assert [loop-ctx] is(stmt.Kind, StmtLoop) ==> v.context.loopDepth == old(v.context.loopDepth) + 1 && v.context.switchDepth == 0
+//@   loop 1 invariant [switch-ctx] v.context.switchDepth == old(v.context.switchDepth) + 1 && v.context.loopDepth == old(v.context.loopDepth) && v.context.ownContinuing == old(v.context.ownContinuing) && v.context.inContinuing == old(v.context.inContinuing) && v.context.function == old(v.context.function)
+//@   at (*Validator).validateBlock#5 assert [loop-body-ctx] is(stmt.Kind, StmtLoop) && !v.context.ownContinuing
+//@   at (*Validator).validateBlock#6 assert [loop-continuing-ctx] is(stmt.Kind, StmtLoop) && v.context.ownContinuing && v.context.inContinuing
